@@ -7,7 +7,7 @@ import tempfile
 import wave
 
 from hypothesis import strategies as st
-from vlib.core import Clause, Enumerated, Violation
+from vlib.core import Clause, Enumerated, Reject, Violation
 
 import audiolazy
 from audiolazy import chunks, WavStream, Stream
@@ -20,7 +20,11 @@ RULE = ("chunks cases = (strategy struct/array/default, format b h i f d B H, by
         "struct.pack(order + str(n) + fmt, *(xs + pads)) compared with the joined chunks, "
         "each chunk size*itemsize bytes, struct.unpack of the join gives the padded "
         "sequence. WAV cases = (width 1..4, channels 1..2, sample list incl. min/max/-1/0, "
-        "rate, keep, open route path/file object/BytesIO, consumption route) written with "
+        "rate, keep, open route path/file object/BytesIO, placement of the WAV inside the opened "
+        "object: alone at offset 0 / after a foreign preamble / after another WAV (other header, "
+        "same header and more frames, same header and every low bit flipped) / between two WAVs "
+        "/ followed or surrounded by foreign bytes - the object is handed over positioned at the "
+        "RIFF header of the wanted WAV, consumption route) written with "
         "the stdlib wave module (24-bit frames packed by hand) into a per-case temp dir; "
         "oracle = the written integers (keep) or (v - 128*[bits==8]) / 2**(bits-1) as exact "
         "floats, header mirror, file closed after exhaustion. non-trivial = at least 2 "
@@ -36,6 +40,10 @@ ASSUMPTIONS = [
   "'the file is closed' is observed as: no /proc/self/fd entry resolves to the temp path "
   "(path route) and the wave reader held by the stream reports getfp() is None; a file object "
   "supplied by the caller stays the caller's responsibility (the wave module never closes it)",
+  "a PCM file handed over as an open file-like object is the RIFF stream that starts at the "
+  "object's current position (what wave.open decodes, which WavStream documents to accept): "
+  "bytes before that position and after the end of the RIFF chunk belong to the container, "
+  "not to the file",
 ]
 
 INT_RANGE = {"b": (-128, 127), "B": (0, 255), "h": (-32768, 32767), "H": (0, 65535),
@@ -218,10 +226,71 @@ def strat_wav(tier):
       keep=st.booleans(),
       rate=st.one_of(st.sampled_from([8000, 44100, 48000, 1, 192000]),
                      st.integers(1, 2 ** 28)),   # rate*channels*width must fit the 32-bit byte-rate field
-      route=st.sampled_from(["path", "path", "fileobj", "bytesio"]),
+      how=st.sampled_from(HOWS),
+      pre=st.binary(min_size=1, max_size=48),   # foreign bytes around the WAV (placements with pre/tail)
+      decoy=st.sampled_from(DECOYS),            # the other WAV stored in the same container
+      dn=st.integers(0, 12),
       consume=st.sampled_from(["list", "list", "next", "take"]),
-    ))
+    )).map(_split_how)
   return st.sampled_from([1, 2, 3, 4]).flatmap(body)
+
+
+# (open route, placement of the wanted WAV inside the opened object).  A name can only denote a file
+# whose RIFF data starts at offset 0; an open file object / BytesIO is decoded from where it stands.
+PLACES = ["start", "preamble", "after_wav", "between", "pre_tail", "tail"]
+DECOYS = ["other", "longer", "flipped"]
+HOWS = [("path", "start")] * 4 + \
+       [(r, p) for r in ("fileobj", "bytesio") for p in ["start"] + PLACES]
+
+
+def _split_how(d):
+  d = dict(d)
+  d["route"], d["place"] = d.pop("how")
+  return d
+
+
+def _wav_bytes(width, ch, rate, vals):
+  buf = io.BytesIO()
+  _write(buf, dict(width=width, ch=ch, rate=rate), vals)
+  return buf.getvalue()
+
+
+def _decoy(case, vals, kind):
+  """Bytes of another valid PCM WAV that differs observably from the wanted one."""
+  width, ch, rate, dn = case["width"], case["ch"], case["rate"], case.get("dn", 3)
+  if kind == "flipped" and vals:      # same header, same length, every sample differs in its low bit
+    return _wav_bytes(width, ch, rate, [v ^ 1 for v in vals])
+  if kind in ("longer", "flipped"):   # same header, more frames
+    lo, hi = _lohi(width)
+    more = [lo + ((k * 40503 + 7) % (hi - lo + 1)) for k in range(ch * (1 + dn))]
+    return _wav_bytes(width, ch, rate, list(vals) + more)
+  w2 = width % 4 + 1                  # another width, channel count and rate
+  lo, hi = _lohi(w2)
+  other = [lo + ((k * 2654435761 + 11) % (hi - lo + 1)) for k in range((3 - ch) * dn)]
+  return _wav_bytes(w2, 3 - ch, rate % 100000 + 1, other)
+
+
+def _container(case, vals):
+  """(bytes of the container, offset of the wanted WAV's RIFF header in it)."""
+  place = case.get("place", "start")
+  blob = _wav_bytes(case["width"], case["ch"], case["rate"], vals)
+  pre = case.get("pre", b"\x00junk")
+  kind = case.get("decoy", "other")
+  if place == "start":
+    head, tail = b"", b""
+  elif place == "preamble":
+    head, tail = pre, b""
+  elif place == "after_wav":
+    head, tail = _decoy(case, vals, kind), b""
+  elif place == "between":
+    head, tail = _decoy(case, vals, kind), _decoy(case, vals, "other")
+  elif place == "pre_tail":
+    head, tail = pre, pre[::-1]
+  elif place == "tail":
+    head, tail = b"", pre
+  else:
+    raise ValueError(place)
+  return head + blob + tail, len(head)
 
 
 def _raw(vals, width):
@@ -253,6 +322,13 @@ def _open_fds(path):
   return hits
 
 
+def _opened(what, make):
+  try:
+    return make()
+  except Exception as e:
+    raise Violation("%s cannot be opened: %s: %s" % (what, type(e).__name__, e))
+
+
 def run_wav(case):
   width, ch, keep = case["width"], case["ch"], case["keep"]
   bits = 8 * width
@@ -260,23 +336,36 @@ def run_wav(case):
   if len(vals) % ch:
     vals = vals[:-1]
   nfr = len(vals) // ch
-  what = "WavStream(%d-bit, %d ch, %d frames, keep=%r, %s)" % (bits, ch, nfr, keep, case["route"])
+  place = case.get("place", "start")
+  if case["route"] == "path" and place != "start":
+    raise Reject("a file name denotes a WAV that starts at offset 0")
+  what = "WavStream(%d-bit, %d ch, %d frames, keep=%r, %s%s)" % (
+    bits, ch, nfr, keep, case["route"], "" if place == "start" else " placed " + place)
   tmp = tempfile.mkdtemp(prefix="c18-case-")
   mine = None
+  offset = 0
   try:
     path = os.path.join(tmp, "t.wav")
     if case["route"] == "bytesio":
-      buf = io.BytesIO()
-      _write(buf, case, vals)
-      mine = io.BytesIO(buf.getvalue())
-      ws = WavStream(mine, keep=keep) if keep else WavStream(mine)
+      data, offset = _container(case, vals)
+      mine = io.BytesIO(data)
+      mine.seek(offset)
+      what += " at offset %d of %d bytes" % (offset, len(data))
+      ws = _opened(what, lambda: WavStream(mine, keep=keep) if keep else WavStream(mine))
+    elif case["route"] == "fileobj":
+      data, offset = _container(case, vals)
+      if place == "start":
+        _write(path, case, vals)        # the wave module writes the disk file itself
+      else:
+        with open(path, "wb") as f:
+          f.write(data)
+      mine = open(path, "rb")
+      mine.seek(offset)
+      what += " at offset %d of %d bytes" % (offset, len(data))
+      ws = _opened(what, lambda: WavStream(mine, keep))
     else:
       _write(path, case, vals)
-      if case["route"] == "fileobj":
-        mine = open(path, "rb")
-        ws = WavStream(mine, keep)
-      else:
-        ws = WavStream(path, keep=keep)
+      ws = WavStream(path, keep=keep)
     hdr = (ws.rate, ws.channels, ws.bits)
     if hdr != (case["rate"], ch, bits):
       raise Violation("%s: (rate, channels, bits) = %r, header says %r"
@@ -331,6 +420,11 @@ def run_wav(case):
     labels.append("extreme value")
   if nfr == 0:
     labels.append("no frames")
+  labels.append("place:" + place)
+  if offset > 0:
+    labels.append("RIFF header at offset>0")
+    if place in ("after_wav", "between"):
+      labels.append("decoy:" + case.get("decoy", "other"))
   return {"nontrivial": nfr >= 3 and neg, "labels": labels}
 
 
@@ -355,6 +449,25 @@ def wav_grid(tier, shard, nshards):
             if i % nshards == shard:
               yield dict(width=width, ch=ch, vals=probes, keep=keep, rate=8000 + i,
                          route=route, consume=consume)
+  # the same probes inside a container: every width x channels x keep x file object kind x placement
+  # with the RIFF header away from offset 0 (consumption route, decoy kind, foreign bytes rotate)
+  pres = [b"\x00", b"MYCONTAINER\x00\x01\x02\x03\x04\x05\x06\x07\x08", b"RIFF", b"RIFF\x04\x00\x00\x00WAVE",
+          b"RIFX\xff\xff\xff\xffWAVEfmt ", bytes(range(256)), b"\n" * 7]
+  for width in (1, 2, 3, 4):
+    lo, hi = _lohi(width)
+    mid = 128 if width == 1 else 0
+    probes = [lo, hi, mid, mid - 1, mid + 1, lo + 1, hi - 1, lo, hi, mid - 1, mid + 2]
+    for ch in (1, 2):
+      for keep in (False, True):
+        for route in ("fileobj", "bytesio"):
+          for place in PLACES:
+            for nvals in (len(probes), 0) if place in ("preamble", "after_wav") else (len(probes),):
+              i += 1
+              if i % nshards == shard:
+                yield dict(width=width, ch=ch, vals=probes[:nvals], keep=keep, rate=8000 + i,
+                           route=route, place=place, pre=pres[i % len(pres)],
+                           decoy=DECOYS[i % 3], dn=i % 5,
+                           consume=("list", "next", "take")[i % 3])
   # long files (thousands of frames, lengths around multiples of 4096 bytes): whatever the reader's
   # internal buffering, every frame is decoded and the stream ends with the file
   j = 0
@@ -368,6 +481,11 @@ def wav_grid(tier, shard, nshards):
           vals = [lo + ((k * 2654435761 + width) % span) for k in range(nfr * ch)]
           yield dict(width=width, ch=ch, vals=vals, keep=bool(j % 2), rate=44100,
                      route=("path", "fileobj", "bytesio")[j % 3], consume=("list", "next", "take")[j % 3])
+          if j % 3:    # the long file again as the second of two WAVs / after foreign bytes in the same object
+            yield dict(width=width, ch=ch, vals=vals, keep=bool(j % 2), rate=44100,
+                       route=("path", "fileobj", "bytesio")[j % 3], place=PLACES[1 + j % 4],
+                       pre=b"\x7f" * (1 + j % 9), decoy=DECOYS[j % 3], dn=j % 7,
+                       consume=("list", "next", "take")[(j + 1) % 3])
   if tier == "thorough" and shard == 0:
     # every 8-bit and every 16-bit value once
     yield dict(width=1, ch=1, vals=list(range(256)), keep=True, rate=8000, route="bytesio",
@@ -392,10 +510,18 @@ CLAUSES = [
   Clause("wav", strat_wav, run_wav, quick=2500, thorough=40000, fuzz={"thorough": 60000},
          floors={"width:8": .08, "width:16": .08, "width:24": .08, "width:32": .08,
                  "stereo": .15, "keep": .15, "scaled": .15, "negative sample": .2,
-                 "route:path": .15, "route:fileobj": .07, "route:bytesio": .07},
-         doc="WavStream on files written by the wave module: keep/scaled values, types, "
-             "[-1,1), header mirror, closed after exhaustion"),
+                 "route:path": .15, "route:fileobj": .07, "route:bytesio": .07,
+                 "RIFF header at offset>0": .1, "place:start": .15, "place:preamble": .025,
+                 "place:after_wav": .025, "place:between": .025, "place:pre_tail": .025,
+                 "place:tail": .025, "decoy:other": .015, "decoy:longer": .015,
+                 "decoy:flipped": .015},
+         doc="WavStream on files written by the wave module, given by name, as an open file "
+             "object or BytesIO standing at the RIFF header (alone, after foreign bytes, after / "
+             "between other WAVs): keep/scaled values, types, [-1,1), header mirror, closed "
+             "after exhaustion"),
   Enumerated("wav_grid", wav_grid, run_wav, shards={"quick": 8, "thorough": 16},
              doc="width x channels x keep x open route x consumption route on boundary "
-                 "samples (thorough: every 8- and 16-bit value)"),
+                 "samples; x placement inside a container for file objects (preamble, after / "
+                 "between other WAVs, trailing bytes; empty and long files too) "
+                 "(thorough: every 8- and 16-bit value)"),
 ]
